@@ -42,7 +42,8 @@ Drift(c, ln) ==
           ELSE LET o == ImplOutcomeX(c.rules, c.map, c.bind, ln.method, WsOf(c.bind, ln.wsarg), ln.path) IN
                IF o.kind # ln.r.kind THEN "ModelAnswersOtherwise"
                ELSE IF o.kind = "match" /\ (o.rule # ln.r.rule \/ o.args # SeqToSet(ln.r.args)) THEN "ModelMatchesOtherRule"
-               ELSE IF o.kind = "redirect" /\ o.url # ln.r.url THEN "ModelRedirectsElsewhere"
+               ELSE IF o.kind = "redirect" /\ o.url # ln.r.url
+                       /\ (o.rule = 0 \/ ~TargetOOD(Target(WithDom(c.rules[o.rule]), o.args))) THEN "ModelRedirectsElsewhere"
                ELSE IF o.kind = "mna" /\ o.methods # SeqToSet(ln.r.methods) THEN "ModelListsOtherMethods"
                ELSE "ok")
     [] ln.op = "build" -> BuildDrift(c.rules, c.map, c.bind, ln.x)
